@@ -396,6 +396,21 @@ func runC16(c C16Case, o *Obs) error {
 		if len(w.Problems) > 0 {
 			return fmt.Errorf("%s: version %s is not well-formed: %s", where, names[0], strings.Join(w.Problems, "; "))
 		}
+		// every other version still listed as current (a parent whose retirement was cut short
+		// by a fault) must be complete too: openers list and merge it
+		for _, other := range currentVersions(store, prefix) {
+			if other == names[0] {
+				continue
+			}
+			ow, err := walkVersion(store, prefix, other)
+			if err != nil {
+				return fmt.Errorf("%s: version %s, listed as current: %v", where, other, err)
+			}
+			if len(ow.Problems) > 0 {
+				return fmt.Errorf("%s: version %s is listed as current but is not complete: %s", where, other, strings.Join(ow.Problems, "; "))
+			}
+			o.Class("other-current-version-walked")
+		}
 		if w.MaxDepth >= 1 {
 			o.Class("commit-height>=1")
 			if w.MaxDepth >= 2 {
